@@ -517,7 +517,7 @@ func checkMain(args []string) int {
 			inconclusive = append(inconclusive, fmt.Sprintf("%s %v: %d unknown solver answers", r.Harness, r.Params, r.Unknown))
 		}
 		if r.Solver.Errors > 0 {
-			inconclusive = append(inconclusive, fmt.Sprintf("%s: %d solver errors", r.Harness, r.Solver.Errors))
+			inconclusive = append(inconclusive, fmt.Sprintf("%s: %d solver errors: %s", r.Harness, r.Solver.Errors, r.SolverErr))
 		}
 		totalPaths += r.Paths
 		pathsDone += r.PathsDone
